@@ -140,13 +140,23 @@ def scen_noise(env, cfg):
         want = [t for t in ('thermal', 'shot') if t in terms]
         env.check('exactly the selected Gaussian terms are drawn: one normal(0, sigma, len) call each (thermal, then shot)',
                   len(calls) == len(want) and all(c[0] == 'normal' and c[3] == L for c in calls) and env.And([env.eq(c[1], 0) for c in calls]))
+        import z3
+        from vf.core import SB
+        nd = len(want) * L
+        # replay steering only: sizeable draws and parameters, so that a wrong variance shows up in the noise samples of the replay
+        steer = [(env.draw(k, 'normal') >= 1).t for k in range(nd)] + [(Tk >= 100).t, (r >= 0.5).t, (Rl >= 100).t] + \
+                [(env.re(S[p][k]) >= 1).t for p in range(pol) for k in range(L)]
         for t, c in zip(want, calls):
             sc = c[2]
             if t == 'thermal':
-                env.check('thermal term: zero-mean Gaussian of variance 4*kB*T*Fn*B/R_load over B = fs/2 [A^2]', env.eq(sc * sc, var_T, scale=1e-12))
+                cnd = env.eq(sc * sc, var_T, scale=1e-12)
+                nm = 'thermal term: zero-mean Gaussian of variance 4*kB*T*Fn*B/R_load over B = fs/2 [A^2]'
             else:
-                env.check('shot term: zero-mean Gaussian of variance 2*e*(r*(mean signal power + mean optical-noise power) + i_dark)*B, B = fs/2 [A^2]',
-                          env.eq(sc * sc, var_S, scale=1e-12))
+                cnd = env.eq(sc * sc, var_S, scale=1e-12)
+                nm = 'shot term: zero-mean Gaussian of variance 2*e*(r*(mean signal power + mean optical-noise power) + i_dark)*B, B = fs/2 [A^2]'
+            if isinstance(cnd, SB):
+                cnd = SB(cnd.t, cnd.rt, z3.And(z3.Not(cnd.t), *steer))
+            env.check(nm, cnd)
     sig_T, sig_S = env.sqrt(var_T), env.sqrt(var_S)
     if 'thermal' in terms:
         for k in range(L):
